@@ -39,14 +39,17 @@ pub fn is_ended_by<T: EbmlSpecification<T> + EbmlTag<T> + Clone>(current_id: u64
 }
 
 #[inline(always)]
-pub fn validate_tag_path<T: EbmlSpecification<T> + EbmlTag<T> + Clone>(tag_id: u64, doc_path: impl Iterator<Item = (u64, EBMLSize, usize)>) -> bool {
+pub fn validate_tag_path<T: EbmlSpecification<T> + EbmlTag<T> + Clone>(tag_id: u64, doc_path: impl Iterator<Item = (u64, EBMLSize, usize)> + Clone) -> bool {
     let path = <T>::get_path_by_id(tag_id);
     let mut path_marker = 0;
     let mut global_counter = 0;
-    for item in doc_path {
+    let mut doc_path = doc_path;
+    while let Some(item) = doc_path.next() {
         let current_node_id = item.0;
 
-        if !item.1.is_known() && is_ended_by::<T>(current_node_id, tag_id) {
+        // A tag can only end an unknown sized master if everything open inside that master is unknown sized as well -
+        // a known sized master in between still contains the tag based on its byte range
+        if !item.1.is_known() && is_ended_by::<T>(current_node_id, tag_id) && doc_path.clone().all(|inner| !inner.1.is_known()) {
             return true;
         }
 
